@@ -159,6 +159,16 @@ def run_diff_property(prop, cfg, tier, seed, replay=None):
         for f in aud['forbidden']:
             broken.append('forbidden token: ' + f)
             rep.oblige('forbidden:' + f, 'audit', False)
+    if tier == 'thorough' and aud['ok']:
+        # the toolchain's independent re-checker replays the compiled declarations of the property's modules (and of
+        # everything they import) through the kernel once more
+        for m in lib.property_modules(prop):
+            with lib.Lock('lake'):
+                rc, out = lib.sh(['lake', 'env', 'leanchecker', f'FpVerif.Properties.{m}'], cwd=lib.LEAN, timeout=3600)
+            okc = rc == 0 and 'uncaught exception' not in out
+            rep.oblige(f'leanchecker:{m}', 'audit', okc, out.strip()[-300:])
+            if not okc:
+                broken.append(f'leanchecker rejects FpVerif.Properties.{m}: {out.strip()[-300:]}')
     ok, out = lib.build_driver()
     if not ok:
         errs = lib.lean_errors(out)
